@@ -22,6 +22,20 @@ narrow signature contexts built in c05_util.check_pair.  Two former findings are
 are plain requirements now: a display order never lists anything twice, whatever the fixed lists of a
 value sort name (C05-fixed-repeats, 471ab8ef), and the position lists never raise, however many
 subtotals a dimension has (C05-derived-idxs-indexerror, 434a0d94); their witnesses are fixed cases.
+
+(d) RENDERINGS of the reported order (c05_util.check_renderings; added after seeded change C05-6, which made
+    the insertion-id form `row_order(ORDER_FORMAT.BOGUS_IDS)` / `column_order(...)` hand out 'ins_<id>' in
+    definition order while the signed form and all values stayed right - the check read the order in the
+    signed form only).  The order is reported in two forms and the outputs must be aligned with "the reported
+    order" in either: in BOTH runs, on every axis, position i of the insertion-id form must name what
+    position i of the signed form names (base index unchanged; 'ins_<k>', k = insertion id of the subtotal
+    the negative index addresses, ids read from the dimension's subtotal sequence, not from the collator),
+    the label displayed there must be the label of a subtotal with id k, and the insertion-id form of the
+    transformed run must be that of the untransformed run re-indexed by the order like any other output.
+    A generator class (c05_util.gen_insertion_order_case) guarantees dimensions with >= 2 subtotals
+    displayed in another order than they are defined in, under payload / explicit / value-sort orders, on
+    slice rows, slice columns and strands; coverage is recorded as `ins-id-order[run]: <where> <collation>
+    <class>` in the evidence distribution.
 """
 import json
 import random
@@ -404,6 +418,10 @@ def run_cases(rep, cases, n_model, rng):
         rep.count_case(cu.replayable(case), nontrivial)
         rep.dist("status=" + res["status"])
         features(case, rep)
+        for key in res["info"].get("renderings", ()):
+            rep.dist(key)
+        if case.get("ins_order_class"):
+            rep.dist("class=insertion-order (>=2 subtotals per categorical dimension)")
         rep.cov["output_comparisons"] = rep.cov.get("output_comparisons", 0) + res["n"]
         for key in ("skipped_legacy_on_arrays", "untransformed_undefined", "empty_display_exceptions"):
             if res["info"].get(key):
@@ -453,6 +471,10 @@ def run(tier, seed):
     n = 420 if tier == "quick" else 6000
     n_model_cases = 220 if tier == "quick" else 2500
     cases = witness_cases() + [cu.gen_case(rng, k) for k in range(n)]
+    # class "insertion order": subtotals displayed in another order than defined, every collation kind
+    irng = random.Random(seed + 555)
+    n_ins = 90 if tier == "quick" else 1200
+    cases += [cu.gen_insertion_order_case(irng, 100000 + k) for k in range(n_ins)]
     mrng = random.Random(seed + 55)
     # the model is evaluated in batches so that the list of live partitions stays small
     step = 300
@@ -473,10 +495,16 @@ def run(tier, seed):
         "opposing_insertion, marginal, univariate_measure; direction; fixed top/bottom with repeats, ids at "
         "both ends, stale ids; unresolvable keys -> fallback); all-hidden dimension 4%; pairwise alpha "
         "settings 35%; a small malformed stream (unsupported measure, missing element_id, hide='true'). "
+        "+ 90 (quick) cases of the class 'insertion order' from random.Random(seed+555): CAT x CAT slices / "
+        "CAT strands, every dimension with 2-3 subtotals (view or transform, ids given / generated / partly "
+        "given) defined in another order than their anchors display them, payload / explicit / value-sort order "
+        "in rotation, hide, prune - for the leg 'both renderings of the reported order name the same vectors'. "
         "non-trivial = the transformed run reorders or removes at least one vector; distinct by content hash")
     rep.assumptions = [
         "the reported row_order()/column_order() of both runs are taken from the implementation (C07/C08/C09 own "
-        "their content); this check owns: no duplicates, range, and that EVERY output is aligned with them",
+        "their content); this check owns: no duplicates, range, that EVERY output is aligned with them, and that "
+        "the two reported forms of an order (signed indexes, insertion ids) name the same vector at every position "
+        "(insertion ids read from the subtotal sequence of the partition's _dimensions: no public way)",
         "dims_info / element derived flags / subtotal is_difference are read from the partition's _dimensions "
         "(no public way)",
         "outputs whose untransformed value raises are not comparable (counted in untransformed_undefined); the "
